@@ -120,6 +120,25 @@ pub fn sd_jwt(cex: &Value) -> Result<String, String> {
       expect("cred", "honest token of B among (A,B)", vs(&honest, &[issuer.clone(), other_doc.clone()]), true);
       expect("cred", "honest token of B, only A trusted", vs(&honest, &[issuer.clone()]), false);
     }
+    // the issuer named by the *reconstructed* credential has to be the DID of the key that verified it - also when `iss` is a concealed
+    // claim supplied as a disclosure (the signed claims then carry no `iss` at all)
+    {
+      let other_doc = doc(OTHER, &[(OTHER, "#assert", MethodScope::assertion_method())]);
+      for (names, want) in [(ISSUER, true), (OTHER, false)] {
+        let c = credential(names, HOLDER, ts(t0), Some(ts(t0 + 1000)));
+        let mut e = SdObjectEncoder::new(&c.serialize_jwt(None).unwrap()).unwrap();
+        let Ok(d_iss) = e.conceal("/iss", None) else {
+          continue;
+        };
+        e.add_sd_alg_property();
+        let signed = sign_jwt(&e.try_to_string().unwrap(), Some(&kid), None, &method_key(ISSUER, "#assert")); // always signed by ISSUER
+        let s2 = SdJwt::new(signed.as_str().to_string(), vec![d_iss.to_string()], None);
+        let got = validator.verify_signature::<_, Object>(&s2, &[issuer.clone(), other_doc.clone()], &JwsVerificationOptions::default()).is_ok();
+        expect("cred", &format!("concealed iss disclosed as {names}, signed by {ISSUER}"), got, want);
+        let got2 = validator.validate_credential::<_, Object>(&s2, &issuer, &copts(), FailFast::FirstError).is_ok();
+        expect("cred", &format!("concealed iss disclosed as {names}, signed by {ISSUER} (validate_credential)"), got2, want);
+      }
+    }
     // ---- key binding
     let kopts = || KeyBindingJWTValidationOptions::new().nonce("n1").aud("aud1").earliest_issuance_date(ts(t0)).latest_issuance_date(ts(t0));
     let k = |s: &SdJwt, o: &KeyBindingJWTValidationOptions| no_panic(std::panic::AssertUnwindSafe(|| validator.validate_key_binding_jwt(s, &holder, o).is_ok()));
